@@ -2,7 +2,7 @@
 import copy
 import warnings
 
-from vlib.h import ob
+from vlib.h import ob, native
 from harness.sigfix import *          # noqa
 from harness.c08 import pack, pub_body, OID_ED, OID_P256, OID_CV, split_one
 from pgpy import PGPKey, PGPUID, PGPMessage
@@ -116,6 +116,9 @@ def build_keys():
     full.userids[1] |= local
     rev = full.revoke(full.userids[1], created=T0, hash=HashAlgorithm.SHA256)
     full.userids[1] |= rev
+    # signatures attached to the key itself: its own direct-key signature and one made by another key
+    full |= full.certify(full, created=T0, hash=HashAlgorithm.SHA256)
+    full |= other.certify(full, created=T0, hash=HashAlgorithm.SHA256)
     return base, full, other
 
 
@@ -186,13 +189,23 @@ SECRETS = {id(k): secret_octets(k) for k in (BASE, FULL)}
 
 @ob('O7.2', 'the public twin of a key consists only of public-key, user-id, user-attribute and signature packets, has the same fingerprint, identities and subkeys, '
             'and contains no secret integer as an octet substring; taken before or after export/import of the private key',
-    'key shape from {uid + subkey; two uids + image + third-party / local / revocation signatures + subkey; passphrase-protected; the second shape as another producer wrote it (non-minimal hashed subpacket length)}; twin taken directly or from a re-imported private key',
+    'key shape from {uid + subkey; two uids + image + third-party / local / revocation signatures + own and third-party direct-key signatures + subkey; passphrase-protected; the second shape as another producer wrote it (non-minimal hashed subpacket length)}; twin taken directly or from a re-imported private key',
     cond_timeout={'q': 280, 't': 600})
 def public_twin_structure(shape: int, reimport: bool) -> bool:
     """
     pre: 0 <= shape < 4
     post: _
     """
+    sh = 0
+    for k in range(4):
+        if shape == k:
+            sh = k
+    ri = True if reimport else False
+    with native():                  # fixture keys are concrete: the choice of shape is all that is symbolic
+        return _twin_structure(sh, ri)
+
+
+def _twin_structure(shape, reimport):
     key = (BASE, FULL, PROT, FOREIGN)[shape]
     if reimport:
         key, _ = PGPKey.from_blob(key.__bytes__())
